@@ -24,3 +24,8 @@ Definition live_max_prefix_len : nat := 5.
 Definition pickle_ops01 : list (Z * bool) :=
   [(73, false); (74, false); (75, false); (77, false); (76, false); (83, false); (84, false); (85, false); (78, true); (86, false); (88, false); (70, false); (71, false); (93, true); (97, true); (101, true); (108, true); (41, true); (116, true); (125, true); (100, true); (115, true); (117, true); (48, true); (50, true); (40, true); (49, true); (103, false); (104, false); (106, false); (112, false); (113, false); (114, false); (99, false); (82, true); (98, true); (105, false); (111, true); (46, true); (80, false); (81, true)].
 Definition pickle_highest_protocol : Z := 5.
+(* literals of numpy_pickle.dump / numpy_pickle_utils._write_fileobject, read off the source by AST pattern *)
+Definition dump_default_method : list Z := [122; 108; 105; 98]. (* compress_method = 'zlib' *)
+Definition dump_lz4_literal : list Z := [108; 122; 52]. (* compress_method == 'lz4' and lz4 is None *)
+Definition dump_level_stop : Z := 10. (* compress_level not in range(10) *)
+Definition write_fallback_method : list Z := [122; 108; 105; 98]. (* _COMPRESSORS['zlib'] in _write_fileobject's else branch *)
